@@ -96,7 +96,7 @@ PROPS = {
         "assumptions": ["informer caches are monotone per kind", "run objects are removed by others only after their Trial completed", "algorithm service returns fresh names"],
     },
     "C08": {
-        "prop_files": ['Katib/Props/C08.lean', 'Katib/Props/C01World.lean', 'Katib/Props/C08Sync.lean', 'Katib/Props/C08World.lean', 'Katib/Props/C08Names.lean'],
+        "prop_files": ['Katib/Props/C08.lean', 'Katib/Props/C01World.lean', 'Katib/Props/C08Sync.lean', 'Katib/Props/C08World.lean', 'Katib/Props/C08Names.lean', 'Katib/Props/C08Guards.lean'],
         "streams": [('SIM', {'quick': 240, 'thorough': 8000}), ('C08S', {'quick': 3000, 'thorough': 100000})],
         "rule": "seeded random schedules of the three real reconcilers on the fake client (1-2 experiments, optionally equally named in two namespaces; maxTrialCount 1-4/unset, parallel 1-3, maxFailed, goal, three resume policies, early stopping, retain, push collector), ops = reconciles with per-kind monotone lagging views (random lag, stalled informers, one kind's cache held for several reconciles - also exactly at the Experiment copy from before its verdict), write-fault masks, abort points, algorithm reply faults (short/long/error, rules RPC error), job outcomes, metric arrival (also after the verdict), early stop, deployment ready, external removal of a completed trial's run object, a run-object-creating reconcile cut off before its status write with the job finishing before the retry; scripted RPC failures cycle through gRPC status codes; then fault-free settling to quiescence, a quiescence probe, optionally one or two budget raises each with a second settling, and optionally a teardown in which Trials are deleted and reconciled while the database call or the finalizer write fails; every op's write log and the whole store are compared with the Lean model; a case = one schedule; distinct = distinct op sequence; stream C08S: sequences of 1-6 real SyncAssignments calls with growing requests against a service that proposes points from a 2x2 space and (3 of 4 cases) leaves the naming to Katib, replies ok/short/long/error; names canonicalised by first appearance; model Katib.Drv.syncRound",
         "trusted": ["controller-runtime fake client stands in for the kube-apiserver (rv conflicts, status subresource, AlreadyExists)",
